@@ -467,6 +467,7 @@ get_perm_c(int_t ispec, SuperMatrix *A, int_t *perm_c)
 
     } else { /* Empty adjacency structure */
 	for (i = 0; i < n; ++i) perm_c[i] = i;
+	SUPERLU_FREE(b_colptr); /* b_rowind is only allocated when bnz != 0 */
     }
 
 }
